@@ -20,24 +20,30 @@ class CallDidNotReturn(Exception):
     pass
 
 
+_HANDLER_INSTALLED = False
+
+
+def _on_alarm(signum, frame):
+    raise CallDidNotReturn("the call did not return")
+
+
 @contextlib.contextmanager
-def guard(seconds: float = 10.0):
+def guard(cpu_seconds: float = 5.0):
     """A call on the streams under test takes microseconds (the wrapped streams never block); one that
-    spins is interrupted and recorded as outcome "error" instead of hanging the check."""
+    spins is interrupted after cpu_seconds of CPU time of this process (a loaded machine cannot trigger
+    that) and recorded as outcome "error" instead of hanging the check."""
+    global _HANDLER_INSTALLED
     if threading.current_thread() is not threading.main_thread():
         yield
         return
-
-    def on_alarm(signum, frame):
-        raise CallDidNotReturn(f"no result after {seconds}s")
-
-    old = signal.signal(signal.SIGALRM, on_alarm)
-    signal.setitimer(signal.ITIMER_REAL, seconds)
+    if not _HANDLER_INSTALLED:
+        signal.signal(signal.SIGVTALRM, _on_alarm)
+        _HANDLER_INSTALLED = True
+    signal.setitimer(signal.ITIMER_VIRTUAL, cpu_seconds)
     try:
         yield
     finally:
-        signal.setitimer(signal.ITIMER_REAL, 0)
-        signal.signal(signal.SIGALRM, old)
+        signal.setitimer(signal.ITIMER_VIRTUAL, 0)
 
 
 # ---------------------------------------------------------------------------------------------------
